@@ -123,16 +123,22 @@ def parse_kani_output(out):
         m = re.match(r"\s*\*\* (\d+) of (\d+) cover properties satisfied", line)
         if m and int(m.group(1)) != int(m.group(2)):
             res[cur]["cover_unsat"].append(line.strip())
+        if re.match(r"CBMC failed with status|CBMC timed out|CBMC appears to have run out of memory", line):
+            res[cur]["crashed"] = line.strip()
         m = re.match(r"VERIFICATION:- (\w+)", line)
         if m:
             res[cur]["status"] = "SUCCESS" if m.group(1) == "SUCCESSFUL" else "FAILED"
+            if res[cur].get("crashed") and not res[cur]["failed"]:
+                res[cur]["status"] = "UNKNOWN"  # tool failure (killed / out of memory), not a refutation
         m = re.match(r"Verification Time: ([\d.]+)s", line)
         if m:
             res[cur]["time_s"] = float(m.group(1))
     # terse / parallel summary lines: "Verification failed for - harness" / "Complete - N successfully verified"
     for m in re.finditer(r"Verification failed for - (\S+)", out):
         h = m.group(1).split("::")[-1]
-        res.setdefault(h, {"status": "FAILED", "checks": 0, "failed": [], "time_s": 0.0, "cover_unsat": []})["status"] = "FAILED"
+        r = res.setdefault(h, {"status": "FAILED", "checks": 0, "failed": [], "time_s": 0.0, "cover_unsat": []})
+        if not r.get("crashed"):
+            r["status"] = "FAILED"
     return res
 
 
@@ -156,20 +162,31 @@ def run_group(root, hs, features, timeout):
         mp = "" if mp == "lib" else mp + "::"
         cmd += ["--harness", f"{mp}verif_kani_{h['module']}::{h['name']}"]
     t0 = time.time()
+    # own process group, so that a timeout kills only THIS run's cbmc processes (other runs may be in flight)
+    p = subprocess.Popen(cmd, cwd=root, stdout=subprocess.PIPE, stderr=subprocess.PIPE, text=True, env=kani_env(), start_new_session=True)
     try:
-        p = subprocess.run(cmd, cwd=root, capture_output=True, text=True, env=kani_env(), timeout=timeout)
-        out = p.stdout + "\n" + p.stderr
+        so, se = p.communicate(timeout=timeout)
+        out = so + "\n" + se
         to = False
-    except subprocess.TimeoutExpired as e:
-        out = (e.stdout.decode() if e.stdout else "") + "\n" + (e.stderr.decode() if e.stderr else "")
+    except subprocess.TimeoutExpired:
+        try:
+            os.killpg(p.pid, signal.SIGKILL)
+        except ProcessLookupError:
+            pass
+        so, se = p.communicate()
+        out = (so or "") + "\n" + (se or "")
         to = True
-        subprocess.run(["pkill", "-f", "cbmc"], capture_output=True)
     return " ".join(cmd), out, to, time.time() - t0
 
 
 def playback_for(root, h, features):
     """ask Kani for a concrete counterexample of harness h; returns test source or None"""
-    cmd = ["cargo", "kani", "-Z", "function-contracts", "-Z", "stubbing", "-Z", "concrete-playback", "--concrete-playback=print", "--harness", h["name"]]
+    mp = h["append_to"][len("src/"):-len(".rs")].replace("/", "::")
+    if mp.endswith("::mod"):
+        mp = mp[:-5]
+    mp = "" if mp == "lib" else mp + "::"
+    cmd = ["cargo", "kani", "-Z", "function-contracts", "-Z", "stubbing", "-Z", "concrete-playback", "--concrete-playback=print", "--exact",
+           "--harness", f"{mp}verif_kani_{h['module']}::{h['name']}"]
     if features:
         cmd += ["--features", features]
     try:
@@ -177,11 +194,12 @@ def playback_for(root, h, features):
     except subprocess.TimeoutExpired:
         return None
     out = p.stdout
-    m = re.search(r"```\s*\n(.*?#\[test\].*?)```", out, re.S)
-    if m:
-        return m.group(1)
-    m = re.search(r"(/// Test generated for harness.*?\n}\n)", out, re.S)
-    return m.group(1) if m else None
+    tests = re.findall(r"(/// Test generated for harness.*?\n}\n)", out, re.S)
+    # Kani also prints playback tests for satisfied `cover`s: prefer the one generated for the failing check
+    fails = [t for t in tests if "Check for `cover`" not in t.split("#[test]")[0]]
+    if fails:
+        return fails[0]
+    return tests[0] if tests else None
 
 
 def run_for(prop, tier):
@@ -205,7 +223,7 @@ def run_for(prop, tier):
         for h in gh:
             r = parsed.get(h["name"])
             if r is None or r["status"] == "UNKNOWN":
-                why = "timed out" if timed_out else "no result (build error?)"
+                why = "timed out" if timed_out else (r.get("crashed") if r and r.get("crashed") else "no result (build error?)")
                 errs = re.findall(r"(error(?:\[E\d+\])?: .*?)\n\s*\n", out, re.S)
                 tail = "" if timed_out else " :: " + re.sub(r"\s+", " ", " | ".join(errs)[:1200] or out[-600:])
                 kr["undecided"].append(f"kani:{h['name']}: {why}{tail}")
